@@ -258,7 +258,9 @@ func (s *Store) Open(ctx context.Context) error {
 
 func (s *Store) Close(ctx context.Context) (err error) {
 	s.mu.Lock()
+	verifTrace(s, "store.acq")
 	dbs := slices.Clone(s.dbs)
+	verifTrace(s, "store.rel")
 	s.mu.Unlock()
 
 	for _, db := range dbs {
@@ -282,7 +284,9 @@ func (s *Store) Close(ctx context.Context) (err error) {
 
 func (s *Store) DBs() []*DB {
 	s.mu.Lock()
+	verifTrace(s, "store.acq")
 	defer s.mu.Unlock()
+	defer verifTrace(s, "store.rel")
 	return slices.Clone(s.dbs)
 }
 
@@ -294,12 +298,15 @@ func (s *Store) RegisterDB(db *DB) error {
 
 	// First check: see if database already exists
 	s.mu.Lock()
+	verifTrace(s, "store.acq")
 	for _, existing := range s.dbs {
 		if existing.Path() == db.Path() {
+			verifTrace(s, "store.rel")
 			s.mu.Unlock()
 			return nil
 		}
 	}
+	verifTrace(s, "store.rel")
 	s.mu.Unlock()
 
 	// Apply store-wide settings before opening the database.
@@ -320,11 +327,13 @@ func (s *Store) RegisterDB(db *DB) error {
 	// Second check: verify database wasn't added by another goroutine while we were opening.
 	// If it was, close our instance and return without error.
 	s.mu.Lock()
+	verifTrace(s, "store.acq")
 
 	for _, existing := range s.dbs {
 		if existing.Path() == db.Path() {
 			// Another goroutine added this database while we were opening.
 			// Release lock before closing to avoid potential deadlock.
+			verifTrace(s, "store.rel")
 			s.mu.Unlock()
 			if err := db.Close(context.Background()); err != nil {
 				db.Logger.Error("close duplicate db", "path", db.Path(), "error", err)
@@ -334,6 +343,7 @@ func (s *Store) RegisterDB(db *DB) error {
 	}
 
 	s.dbs = append(s.dbs, db)
+	verifTrace(s, "store.rel")
 	s.mu.Unlock()
 
 	// Start heartbeat monitor if heartbeat is configured and monitor isn't running.
@@ -349,6 +359,7 @@ func (s *Store) UnregisterDB(ctx context.Context, path string) error {
 	}
 
 	s.mu.Lock()
+	verifTrace(s, "store.acq")
 
 	idx := -1
 	var db *DB
@@ -361,11 +372,13 @@ func (s *Store) UnregisterDB(ctx context.Context, path string) error {
 	}
 
 	if db == nil {
+		verifTrace(s, "store.rel")
 		s.mu.Unlock()
 		return nil
 	}
 
 	s.dbs = slices.Delete(s.dbs, idx, idx+1)
+	verifTrace(s, "store.rel")
 	s.mu.Unlock()
 
 	if err := db.Close(ctx); err != nil {
@@ -475,7 +488,9 @@ func (s *Store) SyncDB(ctx context.Context, path string, wait bool) (SyncDBResul
 // FindDB returns the database with the given path.
 func (s *Store) FindDB(path string) *DB {
 	s.mu.Lock()
+	verifTrace(s, "store.acq")
 	defer s.mu.Unlock()
+	defer verifTrace(s, "store.rel")
 
 	for _, db := range s.dbs {
 		if db.Path() == path {
@@ -489,7 +504,9 @@ func (s *Store) FindDB(path string) *DB {
 // all managed databases.
 func (s *Store) SetL0Retention(d time.Duration) {
 	s.mu.Lock()
+	verifTrace(s, "store.acq")
 	defer s.mu.Unlock()
+	defer verifTrace(s, "store.rel")
 	s.L0Retention = d
 	for _, db := range s.dbs {
 		db.L0Retention = d
@@ -500,7 +517,9 @@ func (s *Store) SetL0Retention(d time.Duration) {
 // and propagates it to all managed databases.
 func (s *Store) SetDone(done <-chan struct{}) {
 	s.mu.Lock()
+	verifTrace(s, "store.acq")
 	defer s.mu.Unlock()
+	defer verifTrace(s, "store.rel")
 	s.done = done
 	for _, db := range s.dbs {
 		db.Done = done
@@ -511,7 +530,9 @@ func (s *Store) SetDone(done <-chan struct{}) {
 // all managed databases.
 func (s *Store) SetShutdownSyncTimeout(d time.Duration) {
 	s.mu.Lock()
+	verifTrace(s, "store.acq")
 	defer s.mu.Unlock()
+	defer verifTrace(s, "store.rel")
 	s.ShutdownSyncTimeout = d
 	for _, db := range s.dbs {
 		db.ShutdownSyncTimeout = d
@@ -522,7 +543,9 @@ func (s *Store) SetShutdownSyncTimeout(d time.Duration) {
 // all managed databases.
 func (s *Store) SetShutdownSyncInterval(d time.Duration) {
 	s.mu.Lock()
+	verifTrace(s, "store.acq")
 	defer s.mu.Unlock()
+	defer verifTrace(s, "store.rel")
 	s.ShutdownSyncInterval = d
 	for _, db := range s.dbs {
 		db.ShutdownSyncInterval = d
@@ -533,7 +556,9 @@ func (s *Store) SetShutdownSyncInterval(d time.Duration) {
 // all managed databases.
 func (s *Store) SetVerifyCompaction(v bool) {
 	s.mu.Lock()
+	verifTrace(s, "store.acq")
 	defer s.mu.Unlock()
+	defer verifTrace(s, "store.rel")
 	s.VerifyCompaction = v
 	for _, db := range s.dbs {
 		db.VerifyCompaction = v
@@ -543,7 +568,9 @@ func (s *Store) SetVerifyCompaction(v bool) {
 
 func (s *Store) SetRetentionEnabled(v bool) {
 	s.mu.Lock()
+	verifTrace(s, "store.acq")
 	defer s.mu.Unlock()
+	defer verifTrace(s, "store.rel")
 	s.RetentionEnabled = v
 	for _, db := range s.dbs {
 		db.RetentionEnabled = v
@@ -661,7 +688,9 @@ LOOP:
 // - The monitor is not already running
 func (s *Store) startHeartbeatMonitorIfNeeded() {
 	s.mu.Lock()
+	verifTrace(s, "store.acq")
 	defer s.mu.Unlock()
+	defer verifTrace(s, "store.rel")
 
 	if s.heartbeatMonitorRunning {
 		return
@@ -866,8 +895,10 @@ func (s *Store) Validate(ctx context.Context) (*ValidationResult, error) {
 	result := &ValidationResult{Valid: true}
 
 	s.mu.Lock()
+	verifTrace(s, "store.acq")
 	dbs := s.dbs
 	levels := s.levels
+	verifTrace(s, "store.rel")
 	s.mu.Unlock()
 
 	for _, db := range dbs {
